@@ -2,6 +2,7 @@ package bgp
 
 import (
 	"fmt"
+	"strings"
 )
 
 // C24: connection collisions. The neighbour is configured as an active peer on the DUT
@@ -74,6 +75,36 @@ func genC24(seed uint64) *Plan {
 		pl.Steps = append(pl.Steps, Step{GapUS: int64(2_000_000 + r.Intn(5_000_000)), Kind: "connect2", Peer: 1})
 	}
 	pl.Steps = append(pl.Steps, Step{GapUS: 3_000_000, Kind: "checkpoint", Label: "settled"})
+	if scenario != "clean" && r.Chance(0.6) {
+		// the neighbour restarts: both connections go away, the DUT dials again after its reconnect
+		// interval and the neighbour connects in around the same time: a second collision on a peer
+		// that still remembers the FSMs of the first one
+		rounds := 1 + r.Intn(2)
+		for k := 0; k < rounds; k++ {
+			pl.Steps = append(pl.Steps, Step{GapUS: int64(100_000 + r.Intn(2_000_000)), Kind: "peer_close", Peer: 0, On: r.Chance(0.5)})
+			pl.Steps = append(pl.Steps, Step{GapUS: int64(r.Intn(50_000)), Kind: "peer_close", Peer: 1, On: r.Chance(0.5)})
+			pl.Steps = append(pl.Steps, Step{GapUS: int64(600_000 + r.Intn(800_000)), Kind: "connect2", Peer: 1})
+			pl.Steps = append(pl.Steps, Step{GapUS: 4_000_000, Kind: "checkpoint", Label: "settled"})
+		}
+		pl.Note = scenario + "+again"
+	} else if scenario == "clean" && r.Chance(0.5) {
+		// the same with hand-scripted endpoints: the loser of the first collision was ceased in
+		// OpenConfirm; both connections are dropped and a second clean collision follows
+		pl.Steps = append(pl.Steps, Step{GapUS: int64(100_000 + r.Intn(1_000_000)), Kind: "peer_close", Peer: 0, On: r.Chance(0.5)})
+		pl.Steps = append(pl.Steps, Step{GapUS: int64(r.Intn(50_000)), Kind: "peer_close", Peer: 1, On: r.Chance(0.5)})
+		pl.Steps = append(pl.Steps, Step{GapUS: int64(680_000 + r.Intn(40_000)), Kind: "connect2", Peer: 1})
+		pl.Steps = append(pl.Steps, Step{GapUS: 900_000, Kind: "checkpoint", Label: "both_opensent"})
+		first, second := 0, 1
+		if r.Chance(0.5) {
+			first, second = 1, 0
+		}
+		pl.Steps = append(pl.Steps, Step{GapUS: 1000, Kind: "send_open", Peer: first})
+		pl.Steps = append(pl.Steps, Step{GapUS: int64(1000 + r.Intn(50_000)), Kind: "send_open", Peer: second})
+		pl.Steps = append(pl.Steps, Step{GapUS: int64(10_000 + r.Intn(50_000)), Kind: "keepalive", Peer: first, Label: "complete"})
+		pl.Steps = append(pl.Steps, Step{GapUS: int64(1000 + r.Intn(50_000)), Kind: "keepalive", Peer: second, Label: "complete"})
+		pl.Steps = append(pl.Steps, Step{GapUS: 3_000_000, Kind: "checkpoint", Label: "settled"})
+		pl.Params["second_round"] = 1
+	}
 	// the survivor exchanges routes
 	pl.Steps = append(pl.Steps, Step{GapUS: 1000, Kind: "checkpoint", Label: "final"})
 	pl.TailUS = 1_000_000
@@ -132,6 +163,12 @@ func (o *c24Oracle) AfterStep(w *World, i int, s *Step) {
 	if surv == inP.conn {
 		loser, loserPeer = outP.conn, outP
 	}
+	if loser.peerClosedFirst {
+		// (later rounds) the other endpoint still holds the connection the neighbour closed itself:
+		// there was no second connection in this round
+		w.Env.probe("round_without_collision")
+		return
+	}
 	// the other connection is closed with a Cease NOTIFICATION
 	if !loser.ClosedByDUT() {
 		w.Env.Violate("C24", "loser_not_closed", "connection %s lost the collision but was not closed by the DUT", loser.name)
@@ -170,6 +207,7 @@ func (o *c24Oracle) Final(w *World) {
 	if est > 1 {
 		w.Env.Violate("C24", "two_established", "at the end: %d Established FSMs (%s)", est, states)
 	}
+	w.Env.probe("final_fsm_states: " + strings.TrimSpace(states))
 	_ = fmt.Sprint
 }
 
